@@ -357,7 +357,7 @@ def e2e(ctx, model_ok):
             if c.get("benign"):       # a metafile directory: the benign metafile and its file name (m.torrent is the hostile one)
                 inp.update(benign_hex=c["benign"].hex(), benign_file=c.get("benign_file") or "good.torrent")
             if rep.get("runner_died"):
-                ctx.broken.append(f"runner process died on {c['label']}")
+                ctx.broken.append(f"no answer from the rebuild on {c['label']}: {rep.get('error')}")
                 continue
             if r["diff"]:
                 ctx.fail("outside-destination-changed", inp, "nothing is created, changed or deleted outside the destination",
